@@ -1,5 +1,7 @@
 import TantivyModel.Driver.Proto
 import TantivyModel.Model.Writer
+import TantivyModel.Model.WriterMergeMeta
+import TantivyModel.Model.WriterHistory
 /-!
 Line protocol of the C02 model.  Documents are the harness's unique ids; a delete query travels
 as its extension over the ids of the history (`-` = matches nothing).
@@ -17,6 +19,10 @@ History tokens (no blanks inside a token, optional `@n` suffix = opstamp the rea
   `C02 impl <workers> <seed> tok…` -> the implementation-level model under a schedule derived from
                                   `seed`, ticking the stamper up to the observed opstamps:
                                   `pub=<ids>;meta=<n>;payload=<n|->;cop=<n>;ret=<n,…>;segs=<k>;merges=<k>`
+  `C02 mergecorner <B> <victim ids> <delop|->:<ids>;…` -> `pub=<ids>;cursor=<n>`: the merged segment
+                                  after ONE merge of those committed segments, when the log holds one
+                                  delete stamped with the commit opstamp B (advance_deletes with its
+                                  delete_opstamp early return; catch-up guard as extracted)
   `C02 clean tok…`             -> `clean` or `dirty:<i,…>;firstdel:<i,…>` (indices of the calls that violate
                                   a hypothesis of `C02_commit_refines_replay_partial`)
 -/
@@ -209,7 +215,30 @@ def implRun (sc : Sched) : List (Op Nat × Option Nat) → Nat → List Nat → 
       | none => .error s!"disabled:{i}"
       | some (s', ret) => implRun { sc with st := s' } rest (i + 1) (ret :: rets)
 
+/-- `<delete_opstamp|->:<alive ids>` -/
+def parseCornerSeg (i : Nat) (t : String) : Option (Seg Nat) :=
+  match t.splitOn ":" with
+  | [d, ids] =>
+    let delOp : Option (Option Nat) := if d == "-" then some none else d.toNat?.map some
+    match delOp, natList ids with
+    | some dop, some l =>
+      some { id := i, docs := l.map (fun x => ({ doc := x, op := 0, alive := true } : SDoc Nat)), cursor := 0,
+             delOp := dop, metaDead := if dop.isSome then 1 else 0 }
+    | _, _ => none
+  | _ => none
+
 def handle : List String → String
+  | ["mergecorner", b, victims, segs] =>
+    -- a re-created writer's first delete (stamped with the commit opstamp `b`, matching `victims`),
+    -- then ONE merge of the committed segments `segs` (in the order of the merge operation):
+    -- what the merged segment shows and where its cursor is (Model/WriterMergeMeta.lean)
+    match b.toNat?, natList victims, ((segs.splitOn ";").zipIdx.mapM (fun p => parseCornerSeg p.2 p.1)) with
+    | some b, some v, some srcs =>
+      let log : List (DelOp Nat) := [{ op := b, q := extQuery v }]
+      match mergeCommitted Gen.END_MERGE_CATCHUP_CMP log b srcs with
+      | some (docs, cur) => s!"pub={showNatList (sortNat docs)};cursor={cur}"
+      | none => "pub=-;cursor=-"
+    | _, _, _ => "bad-op"
   | "replay" :: toks =>
     match toks.mapM parseTok with
     | none => "bad-op"
@@ -220,9 +249,12 @@ def handle : List String → String
     match toks.mapM parseTok with
     | none => "bad-op"
     | some ops =>
+      -- the verdict is `okHistB` (proved equivalent to the hypothesis `okHist` of
+      -- C02_commit_refines_replay_history); the index lists only say where
+      let verdict := okHistB HFlags.init (ops.map (·.1))
       match hypViolations (ops.map (·.1)) with
-      | ([], []) => "clean"
-      | (l, f) => "dirty:" ++ showNatList l ++ ";firstdel:" ++ showNatList f
+      | ([], []) => if verdict then "clean" else "verdict-mismatch"
+      | (l, f) => if verdict then "verdict-mismatch" else "dirty:" ++ showNatList l ++ ";firstdel:" ++ showNatList f
   | "impl" :: nw :: seed :: toks =>
     match nw.toNat?, seed.toNat?, toks.mapM parseTok with
     | some nw, some seed, some ops =>
